@@ -4,7 +4,7 @@ from __future__ import annotations
 
 from vf.cond import cond
 
-from .common import STUB_STRICT_INIT, DictLoader, Environment, LiquidError, VFalsyStrict, VStrict, concrete_int
+from .common import drive, STUB_STRICT_INIT, DictLoader, Environment, LiquidError, VFalsyStrict, VStrict, concrete_int
 
 from liquid2.exceptions import UndefinedError  # noqa: E402
 from liquid2.undefined import Undefined  # noqa: E402
@@ -72,9 +72,10 @@ def _data(pa: bool, pb: bool, pl: bool, po: bool, pk: bool, va: int, vb: int) ->
     return d
 
 
-def _run(policy: int, i: int, data: dict):
+def _run(policy: int, i: int, data: dict, is_async: bool = False):
     try:
-        return ("ok", TEMPLATES[policy][i].render(**data))
+        t = TEMPLATES[policy][i]
+        return ("ok", drive(t.render_async(**data)) if is_async else t.render(**data))
     except UndefinedError:
         return ("undefined", None)
     except LiquidError as e:
@@ -84,21 +85,21 @@ def _run(policy: int, i: int, data: dict):
 @cond(
     pre=["0 <= va <= 4", "0 <= vb <= 4"],
     timeout=240,
-    shard={"i": list(range(len(PROGRAMS)))},
-    covers="(a) a strict or falsy-strict render that succeeds prints exactly what the default policy prints; (b) a strict UndefinedError implies the default run created an undefined (something missing was used); (c) the default policy never raises UndefinedError; with everything present no policy raises UndefinedError",
+    shard={"i": list(range(len(PROGRAMS))), "is_async": [False, True]},
+    covers="(a) a strict or falsy-strict render that succeeds prints exactly what the default policy prints; (b) a strict UndefinedError implies the default run created an undefined (something missing was used); (c) the default policy never raises UndefinedError; with everything present no policy raises UndefinedError; render() and render_async() (RenderContext.get and get_async are separate code)",
     bounds="15 programs (output, default filter, conditions, loops, filter arguments, lambdas, partial arguments, path segments, assign/capture, case/ternary, ranges/cycle/echo, comparisons); 5 presence bits (a, b, l, o, o.k); values 0..2, nil or false (a variable bound to nil or false exists)",
     stubs=(STUB_STRICT_INIT,),
-    grid=lambda: [(i, pa, pb, True, po, pk, va, vb) for i in range(len(PROGRAMS)) for pa in (False, True) for pb in (False, True) for po in (False, True) for pk in (False, True) for va, vb in ((1, 2), (4, 3), (3, 4))],
+    grid=lambda: [(i, pa, pb, True, po, pk, va, vb, is_async) for i in range(len(PROGRAMS)) for pa in (False, True) for pb in (False, True) for po in (False, True) for pk in (False, True) for va, vb in ((1, 2), (4, 3), (3, 4)) for is_async in (False, True)],
 )
-def d_refine(i: int, pa: bool, pb: bool, pl: bool, po: bool, pk: bool, va: int, vb: int) -> bool:
+def d_refine(i: int, pa: bool, pb: bool, pl: bool, po: bool, pk: bool, va: int, vb: int, is_async: bool) -> bool:
     data = _data(pa, pb, pl, po, pk, va, vb)
     CREATED[0] = 0
-    default = _run(0, i, data)
+    default = _run(0, i, data, is_async)
     created = CREATED[0]
     if default[0] == "undefined":
         return False
     for policy in (1, 2):
-        got = _run(policy, i, _data(pa, pb, pl, po, pk, va, vb))
+        got = _run(policy, i, _data(pa, pb, pl, po, pk, va, vb), is_async)
         if got[0] == "ok":
             if default[0] != "ok" or got[1] != default[1]:
                 return False
@@ -118,10 +119,10 @@ def d_refine(i: int, pa: bool, pb: bool, pl: bool, po: bool, pk: bool, va: int, 
     covers="with every referenced variable and property present (possibly bound to nil), no undefined policy raises UndefinedError and all three policies print the same",
     bounds="15 programs; values 0..2, nil or false",
     stubs=(STUB_STRICT_INIT,),
-    grid=lambda: [(i, va, vb) for i in range(len(PROGRAMS)) for va in range(5) for vb in (0, 3, 4)],
+    grid=lambda: [(i, va, vb, a) for i in range(len(PROGRAMS)) for va in range(5) for vb in (0, 3, 4) for a in (False, True)],
 )
-def d_all_present(i: int, va: int, vb: int) -> bool:
-    outs = [_run(p, i, _data(True, True, True, True, True, va, vb)) for p in range(3)]
+def d_all_present(i: int, va: int, vb: int, is_async: bool) -> bool:
+    outs = [_run(p, i, _data(True, True, True, True, True, va, vb), bool(is_async)) for p in range(3)]
     if any(o[0] == "undefined" for o in outs):
         # legitimate only for programs that reference something below a present value (o.k.z, o[b].c):
         # FULLY_PRESENT programs (decided with non-nil data at import) reference nothing that is missing,
